@@ -227,7 +227,9 @@ EXTREME_LITERALS = [
     "(m^2)^(0.1+0.2)", "(1 m)^1e30 * (m^2)^(0.1+0.2)", "m^(1/3) * m^(2/3)", "x^(2^126)", "fn vf_p(x) = x^(2^126) * x^(2^126)", "1e400", "1e-400", "9" * 400,
     "0." + "0" * 400 + "1", "0x" + "F" * 40, "0b" + "1" * 200, "1_0_0_0", "1e+", "1e+400 m", "(1e200 m)^2 * (1e200 m)^2",
     "sqrt(-1 m^2)", "ln(0)", "1 / (0 m)", "mod(5, 0)", "mod(5 m, 0 m)", "gamma(-1)", "gamma(171.7)", "170!", "171!", "1000!", "(-1)!", "2.5!",
-    "3!!", "10!!!", "range(1, 0)", "random()", "round(1e300)",
+    "3!!", "10!!!", "range(1, 0)", "random()", "round(1e300)", "fn vf_p(x) = x x^(2^126) * x^(2^126)",
+    "unit vf_u = [1, 2, 3]", 'unit vf_u = "s"', "unit vf_u = true", "unit vf_u = now()", "unit vf_u = sqrt", '"{?}"', 'fn vf_h(x) = "{x + ?}"',
+    'print("{?} and {?}")', "assert_eq(1, 2, 1e-70)", "assert_eq(1 g, 2 g, 1e-101 g)", "assert_eq(0.6e-70, 2, 1e-70)", "assert_eq(1, 2, 1e-300)",
     "floor(NaN)", "1 m -> NaN", "NaN m -> cm", "inf m + 1 m", "inf - inf", "0 * inf", "now() + 1e18 s", "now() - 1e18 years",
     'datetime("9999-12-31 23:59:59 UTC") + 1 year', 'datetime("0000-00-00")', 'date("2024-02-30")', 'tz("")', 'format_datetime("%", now())',
     'format_datetime("%Q", now())', '"{1:x}"', '"{1:>99999}"', '"{1:.99999}"', '"{"a":?}"', "hex(1e300)", "bin(-1)", "hex(2^64)",
